@@ -645,3 +645,7 @@ where
         }
     }
 }
+
+#[cfg(any(kani, pearl_verif))]
+#[path = "/verif/kani/hier.rs"]
+mod verif_kani;
